@@ -1,4 +1,78 @@
-import YncaVerif.Lemmas.L4Defs
+import YncaVerif.Lemmas.L4Step
 /-! Helper lemmas for C13. -/
 namespace Ynca.L4
+
+/-- the line is a `SYS:MODELNAME` report -/
+def isModelname (l : String) : Bool :=
+  (parseLine l).subunit == some "SYS" && (parseLine l).fn == some "MODELNAME"
+
+theorem handleLine_withheld (ka : Bool) (l : String) : (handleLine ka l).2 = (ka && isModelname l) := by
+  simp [handleLine, isModelname, Bool.and_assoc]
+
+/-- the C13 invariant: the flag mirrors the probe counters and every recorded decision is the conjunction -/
+def KaInv (s : St) : Prop :=
+  s.kaPending = decide (s.probesAtClear < s.probesStarted) ∧ s.probesAtClear ≤ s.probesStarted ∧
+  ∀ d ∈ s.decisions, d.2.1 = (d.2.2 && isModelname d.1)
+
+theorem kaInv_step (P : Params) (s s' : St) (l : Label) (o : Option Obs)
+    (hi : KaInv s) (hs : step P s l = some (s', o)) : KaInv s' := by
+  obtain ⟨h1, h2, h3⟩ := hi
+  cases l <;> simp only [step] at hs
+  case s =>
+    unfold stepS at hs
+    split at hs <;> (try split at hs) <;> (try split at hs) <;> simp at hs <;> obtain ⟨rfl, rfl⟩ := hs <;>
+      first | exact ⟨h1, h2, h3⟩ | (refine ⟨?_, ?_, h3⟩ <;> simp <;> omega)
+  case r =>
+    unfold stepR at hs
+    split at hs <;> (try split at hs) <;> (try split at hs) <;> simp at hs <;> obtain ⟨rfl, rfl⟩ := hs <;>
+      first | exact ⟨h1, h2, h3⟩ | (refine ⟨?_, ?_, h3⟩ <;> simp <;> omega) | skip
+    refine ⟨h1, h2, ?_⟩
+    intro d hd
+    simp only [List.mem_append, List.mem_singleton] at hd
+    rcases hd with hd | rfl
+    · exact h3 d hd
+    · simp [handleLine_withheld, h1]
+  case u t =>
+    unfold stepU at hs
+    split at hs
+    · simp at hs
+    · split at hs <;> simp at hs <;> obtain ⟨rfl, rfl⟩ := hs <;> first | exact ⟨h1, h2, h3⟩ | (simp only [KaInv, setUpc_kaPending, setUpc_probesStarted, setUpc_probesAtClear, setUpc_decisions]; exact ⟨h1, h2, h3⟩)
+    · simp at hs; obtain ⟨rfl, rfl⟩ := hs; first | exact ⟨h1, h2, h3⟩ | (simp only [KaInv, setUpc_kaPending, setUpc_probesStarted, setUpc_probesAtClear, setUpc_decisions]; exact ⟨h1, h2, h3⟩)
+    · unfold stepClose at hs
+      split at hs <;> (try split at hs) <;> simp at hs <;> obtain ⟨rfl, rfl⟩ := hs <;>
+        first | exact ⟨h1, h2, h3⟩ | (simp only [KaInv, setUpc_kaPending, setUpc_probesStarted, setUpc_probesAtClear, setUpc_decisions]; exact ⟨h1, h2, h3⟩)
+  all_goals
+    (repeat' split at hs) <;> simp at hs <;> obtain ⟨rfl, rfl⟩ := hs <;> first | exact ⟨h1, h2, h3⟩ | (simp only [KaInv, setUpc_kaPending, setUpc_probesStarted, setUpc_probesAtClear, setUpc_decisions]; exact ⟨h1, h2, h3⟩)
+
+theorem kaInv_reachable (P : Params) (s : St) (h : Reachable P s) : KaInv s :=
+  reachable_induction P KaInv (by simp [KaInv]) (kaInv_step P) s h
+
+theorem flag_exact (P : Params) (s : St) (h : Reachable P s) :
+    s.kaPending = decide (s.probesAtClear < s.probesStarted) := (kaInv_reachable P s h).1
+
+theorem withheld_only_if (P : Params) (s : St) (h : Reachable P s) :
+    ∀ d ∈ s.decisions, d.2.1 = true → isModelname d.1 = true ∧ d.2.2 = true := by
+  intro d hd hw
+  have := (kaInv_reachable P s h).2.2 d hd
+  rw [hw] at this
+  simpa [and_comm] using this.symm
+
+theorem delivered_otherwise (P : Params) (s : St) (h : Reachable P s) :
+    ∀ d ∈ s.decisions, (isModelname d.1 = false ∨ d.2.2 = false) → d.2.1 = false := by
+  intro d hd hw
+  rw [(kaInv_reachable P s h).2.2 d hd]
+  rcases hw with hw | hw <;> simp [hw]
+
+theorem withheld_if (P : Params) (s : St) (h : Reachable P s) :
+    ∀ d ∈ s.decisions, isModelname d.1 = true → d.2.2 = true → d.2.1 = true := by
+  intro d hd hm hp
+  rw [(kaInv_reachable P s h).2.2 d hd, hm, hp]; rfl
+
+theorem withheld_skips_delivery (P : Params) (s s' : St) (l : String) (o : Option Obs)
+    (hpc : s.rpc = .line2 l true) (h : step P s .r = some (s', o)) : s'.rpc = .split ∧ o = none := by
+  simp only [step, stepR, hpc] at h
+  simp at h
+  obtain ⟨rfl, rfl⟩ := h
+  simp
+
 end Ynca.L4
